@@ -203,6 +203,7 @@ let parse_edit (toks : string list) : z edit option = match toks with
   | ["LKPOP"; p] -> Some (ELeafPopKey (nat_of_int (ios p)))
   | ["LPUSH"; p; z; id; v] -> Some (ELeafPush (nat_of_int (ios p), key_of (ios z) (ios id), z_of_int (ios v)))
   | ["LPUSHK"; p; z; id] -> Some (ELeafPushKey (nat_of_int (ios p), key_of (ios z) (ios id)))
+  | ["LPUSHV"; p; v] -> Some (ELeafPushVal (nat_of_int (ios p), z_of_int (ios v)))
   | ["LTRUNC"; p; n] -> Some (ELeafTrunc (nat_of_int (ios p), nat_of_int (ios n)))
   | ["BTRUNC"; p; n] -> Some (EBranchTrunc (nat_of_int (ios p), nat_of_int (ios n)))
   | ["BCPOP"; p] -> Some (EBranchPopChild (nat_of_int (ios p)))
